@@ -56,6 +56,7 @@ REQUIRED_PROBES = {
         "all_absent_group_step",
         "hparam_write",
         "multi_group_run",
+        "group_twin_compare",
     ],
 }
 
@@ -66,7 +67,10 @@ def generate(rng: random.Random, tier: str) -> dict:
 
 def execute(trace: dict) -> Outcome:
     common.quiet_logs()
-    run = engine.SingleRun(trace, [engine.FrozenMonitor(), engine.RefOracle()], ID)
+    oracles = [engine.FrozenMonitor(), engine.RefOracle()]
+    if len(trace["groups"]) > 1:
+        oracles.append(engine.GroupIndependenceTwin())
+    run = engine.SingleRun(trace, oracles, ID)
     v = run.run()
     run.probes["hparam_write"] += sum(1 for e in trace["events"] if e["op"] == "set_hparam")
     run.probes["multi_group_run"] += 1 if len(trace["groups"]) > 1 else 0
